@@ -98,6 +98,11 @@ def caction(a):
     return '(ActS %s)' % cstr(a) if isinstance(a, str) else '(ActI %s)' % cz(a)
 
 
+def struct_f32(v):
+    import struct
+    return struct.unpack('>f', struct.pack('>f', v))[0]
+
+
 def ccompl(c):
     if c is None:
         return 'CNone'
@@ -140,6 +145,11 @@ def coq_op(op, step):
         c = op.get('ctor', 'init')
         act = CONV_ACTION[c] if c != 'init' else op['action']
         return 'OGroup %s %s %s %s' % (cbool(op['par']), cz(alloc_of(step, 'node') or 0), ctarget(op['target']), caction(act))
+    if o == 'play':
+        info = step.get('info') or {}
+        tg = op['target'] if op['kind'] == 'func' else {'t': 'server'}
+        return 'OPlay %s %s %s %s %s %s %s' % (cz(alloc_of(step, 'node') or 0), cstr(info.get('defname', '')), cz(info.get('defbytes', 0)),
+                                               pval(op['outbus']), pval(op['args']), ctarget(tg), caction(op['action']))
     if o == 'basic_new':
         return 'OBasicNew %s' % cz(op['id'])
     if o == 'n_set':
@@ -480,7 +490,7 @@ def monitors(h, out, default_group=1):
                 bus_blocks.add((a[0], a[1], a[2]))
                 bus_ever.add((a[0], a[1], a[2]))       # like the theorem's ledger: ids the allocator has handed out (a sub-bus
                                                        # at offset 0 that is freed returns the parent's block; the parent stays usable)
-        if o in ('synth', 'group', 's_reorder') and op['target']['t'] == 'int':
+        if o in ('synth', 'group', 's_reorder', 'play') and op.get('target', {}).get('t') == 'int':
             node_known.add(op['target']['x'])
         if op.get('compl') and op['compl']['k'] == 'msg':
             for a in op['compl']['args']:
@@ -608,7 +618,7 @@ def monitors(h, out, default_group=1):
             want_allocs = 0
             if o == 'synth' and op.get('ctor') != 'grain' and not (op.get('ctor') == 'replace' and op['same_id']):
                 want_allocs = 1
-            if o == 'group':
+            if o in ('group', 'play'):
                 want_allocs = 1
             if len(nallocs) != want_allocs:
                 bad.append((None, 'op %d (%s): %d node ids drawn from the allocator, %d objects created (ids %s)' % (
@@ -622,7 +632,9 @@ def monitors(h, out, default_group=1):
                 node_ids.append(node_ids[op['target']['i']])
             else:
                 node_ids.append(nallocs[-1] if nallocs else None)
-        elif o == 'group':
+        elif o == 'play' and st['exc'] == 'BusException':
+            pass                # as for Synth: the caller's as_map() raised, play() was never called
+        elif o in ('group', 'play'):
             node_ids.append(nallocs[-1] if (nallocs and st['exc'] is None) else None)
         elif o == 'basic_new':
             node_ids.append(op['id']); node_known.add(op['id'])
@@ -652,6 +664,39 @@ def monitors(h, out, default_group=1):
                         bad.append((None, 'op %d (%s): %s %s, expected %s' % (i, o, m[0], [a[1] for a in m[1]], [own, node_ids[op['t']]])))
                 elif m[1] and m[1][0][0] == 'i' and m[1][0][1] != own:
                     bad.append((None, 'op %d (%s): %s addresses node %s, the object has id %s' % (i, o, m[0], m[1][0][1], own)))
+        # play(func / buffer): '/d_recv bytes [/s_new defName ownId addAction target _iout b out b (control value)*]'
+        if depth == 0 and o == 'play' and st['exc'] is None:
+            info = st.get('info') or {}
+            t = op['target'] if op['kind'] == 'func' else {'t': 'server'}
+            want_t = {'none': default_group, 'server': default_group, 'root': 0}.get(t['t'])
+            if t['t'] == 'int':
+                want_t = t['x']
+            elif t['t'] == 'node':
+                want_t = node_ids[t['i']]
+            sub = None
+            if len(msgs) == 1 and msgs[0][0] == '/d_recv' and len(msgs[0][1]) == 2 and msgs[0][1][1][0] == 'b' and msgs[0][1][1][1][0] == '/s_new':
+                sub = msgs[0][1][1][1]
+            if sub is None:
+                bad.append((None, 'op %d (play): expected one /d_recv with the /s_new creation command as completion message, sent %s' % (i, json.dumps(msgs)[:300])))
+            else:
+                head = scproto.plain_values(sub, 4)
+                ob = op['outbus']
+                obv = ob['x'] if ob['v'] == 'i' else bus_objs.get(ob['i'])
+                want_head = [info.get('defname'), nallocs[-1] if nallocs else None, scproto.REF_ACTIONS[op['action']], want_t]
+                if head != want_head:
+                    bad.append((None, 'op %d (play): creation command /s_new %s ..., expected definition / own id / add action / target %s' % (i, head, want_head)))
+                a = op['args']
+                items = a['x'] if a['v'] in ('l', 't') else [x for kv in a['x'] for x in kv]
+                if all(x['v'] in ('i', 's') or (x['v'] == 'f') for x in items):
+                    plain = [x['x'] if x['v'] in ('i', 's') else (lambda fr: int(fr) if fr.denominator == 1 else float(fr))(Fraction(x['x'])) for x in items]
+                    want_c = ['_iout', obv, 'out', obv] + plain
+                    got_c = scproto.plain_values([sub[0], sub[1][4:]], len(sub[1]) - 4)
+                    got_c = [float(Fraction(struct_f32(v))) if isinstance(v, float) else v for v in got_c]
+                    want_c = [float(Fraction(struct_f32(v))) if isinstance(v, float) else v for v in want_c]
+                    if got_c != want_c:
+                        bad.append((None, 'op %d (play): the creation command carries the controls %s, expected the (control, value) pairs %s' % (i, got_c, want_c)))
+                elif (len(sub[1]) - 4) < 4 or scproto.plain_values([sub[0], sub[1][4:]], 4)[0::2] != ['_iout', 'out']:
+                    bad.append((None, 'op %d (play): the creation command does not start its controls with _iout / out: %s' % (i, json.dumps(sub)[:300])))
         # M3: creation command carries the object's own id
         if depth == 0 and created:
             got = [m[1][0][1] for m in msgs if m[0] in ('/b_alloc', '/b_allocRead', '/b_allocReadChannel')]
@@ -808,7 +853,13 @@ def bind_metamorphic(h, out, flat_out):
                 reuse = True
         for f in st['free']:
             freed_kinds.add(f[0])
-    norm = (lambda ms: [(m[0], len(m[1])) for m in ms]) if reuse else (lambda ms: ms)
+    # names of temporary definitions (play()) come from one process-wide counter: in a history that addresses several servers
+    # the per-server view does not start at temp__0; the name itself is checked against the object's def_name elsewhere
+    def anon(x):
+        if isinstance(x, list):
+            return [anon(y) for y in x]
+        return 'temp__*' if isinstance(x, str) and x.startswith('temp__') and x[6:].isdigit() else x
+    norm = (lambda ms: [(m[0], len(m[1])) for m in ms]) if reuse else (lambda ms: anon(ms))
     for i, (op, st) in enumerate(zip(ops, out['steps'])):
         o = op['op']
         if o == 'bind_enter':
@@ -820,8 +871,10 @@ def bind_metamorphic(h, out, flat_out):
             else:
                 got = [m for ev in st['ev'] for m in event_msgs(ev)]
                 if st['exc'] is None and norm(got) != norm(top):
-                    bad.append((None, 'op %d: bundle at bind() exit differs from the commands issued inside, in order: got %s, issued %s' % (
-                        i, [m[0] for m in got], [m[0] for m in top])))
+                    dif = [(a, b) for a, b in zip(norm(got), norm(top)) if a != b][:1]
+                    bad.append((None, 'op %d: bundle at bind() exit differs from the commands issued inside, in order: got %s, issued %s%s' % (
+                        i, [m[0] for m in got], [m[0] for m in top],
+                        ('; first difference: in the bundle %s, outside bind() %s' % (json.dumps(dif[0][0])[:400], json.dumps(dif[0][1])[:400])) if dif else '')))
                 if st['exc'] is None and top and len(st['ev']) != 1:
                     bad.append((None, 'op %d: %d packets at bind() exit' % (i, len(st['ev']))))
         elif o == 'bind_raise':
@@ -861,7 +914,51 @@ def _sv(n, a=0):
     return [{'v': 'f', 'x': str(Fraction((a + k) % 7, 4))} for k in range(n)]
 
 
+def _i(x): return {'v': 'i', 'x': x}
+def _s(x): return {'v': 's', 'x': x}
+def _f(a, b=1): return {'v': 'f', 'x': str(Fraction(a, b))}
+def _L(*x): return {'v': 'l', 'x': list(x)}
+def _T(*x): return {'v': 't', 'x': list(x)}
+def _D(*kv): return {'v': 'd', 'x': [list(p) for p in kv]}
+
+
+def _synths(n, target, a=0):
+    return [{'op': 'synth', 'ctor': 'init', 'def': 'default', 'args': _L(_s('freq'), _i(200 + (a + k) % 50), _s('amp'), _f(1, 4), _s('pan'), _f((a + k) % 5 - 2, 2)),
+             'target': target, 'action': 'addToTail' if k % 2 else 'addToHead', 'same_id': False} for k in range(n)]
+
+
 FIXED_HISTORIES = [
+    # bind() blocks of medium size: 8 .. 40 KB of OSC (far below the datagram limit) leave as ONE bundle
+    {'cls': 'valid', 'tags': ['fixed:medium-bind-blocks'], 'latency': '1/5', 'ops': [
+        {'op': 'group', 'par': False, 'ctor': 'init', 'target': {'t': 'none'}, 'action': 'addToHead'},
+        {'op': 'bind_enter'}] + _synths(60, {'t': 'node', 'i': 0}) + [{'op': 'bind_exit'},                      # ~ 5 KB
+        {'op': 'bind_enter'}] + _synths(120, {'t': 'node', 'i': 0}, 7) + [
+        {'op': 'n_set', 'n': k, 'args': [_s('freq'), _i(300 + k), _s('gate'), _i(0)]} for k in range(1, 40)] + [{'op': 'bind_exit'},   # ~ 12 KB
+        {'op': 'b_new', 'frames': 4096, 'channels': 1, 'compl': None},
+        {'op': 'bind_enter'}, {'op': 'bind_enter'}] + [
+        {'op': 'b_setn', 'b': 0, 'args': [_i(1000 * k), _L(*_sv(900, k))]} for k in range(4)] + [{'op': 'bind_exit'}] + _synths(250, {'t': 'none'}, 3) + [
+        {'op': 'bind_exit'},                                                                                    # ~ 35 KB
+        {'op': 'bind_enter'}] + [
+        {'op': 'b_setn', 'b': 0, 'args': [_i(100 * k), _L(*_sv(1850, k))]} for k in range(6)] + [{'op': 'bind_exit'}]},    # ~ 56 KB
+    # the play() entry point: controls as list / tuple / dict, bus objects, inside and outside bind()
+    {'cls': 'valid', 'tags': ['fixed:play'], 'ops': [
+        {'op': 'group', 'par': False, 'ctor': 'init', 'target': {'t': 'none'}, 'action': 'addToHead'},
+        {'op': 'bus_new', 'audio': False, 'channels': 2},
+        {'op': 'bus_new', 'audio': True, 'channels': 2},
+        {'op': 'b_new', 'frames': 1024, 'channels': 2, 'compl': None},
+        {'op': 'play', 'kind': 'func', 'args': _D((_s('freq'), _i(220)), (_s('amp'), _f(1, 4))), 'outbus': _i(0), 'fade': 0.02, 'action': 'addToTail', 'target': {'t': 'node', 'i': 0}},
+        {'op': 'play', 'kind': 'func', 'args': _L(_s('freq'), _i(330), _s('pan'), _f(-1, 2)), 'outbus': _i(2), 'fade': 0, 'action': 'addToHead', 'target': {'t': 'none'}},
+        {'op': 'play', 'kind': 'func', 'args': _T(_s('freq'), _L(_i(1), _i(2)), _s('amp'), {'v': 'bus', 'i': 0}), 'outbus': {'v': 'bus', 'i': 1}, 'fade': 0.02, 'action': 'addAfter', 'target': {'t': 'node', 'i': 1}},
+        {'op': 'play', 'kind': 'func', 'args': _D((_s('freq'), {'v': 'map', 'i': 0})), 'outbus': _i(0), 'fade': 0.02, 'action': 0, 'target': {'t': 'server'}},
+        {'op': 'play', 'kind': 'func', 'args': _D(), 'outbus': _i(0), 'fade': 0.02, 'action': 'addToHead', 'target': {'t': 'int', 'x': 1}},
+        {'op': 'play', 'kind': 'func', 'args': _T(), 'outbus': _i(0), 'fade': 0.02, 'action': 'addToHead', 'target': {'t': 'root'}},
+        {'op': 'play', 'kind': 'buf', 'b': 0, 'loop': True, 'args': _D((_s('amp'), _f(1, 2)), (_s('pan'), _i(1)), (_s('gate'), _i(1))), 'outbus': _i(0), 'fade': 0.02, 'action': 'addToTail'},
+        {'op': 'bind_enter'},
+        {'op': 'play', 'kind': 'func', 'args': _D((_s('freq'), _i(550))), 'outbus': _i(1), 'fade': 0.02, 'action': 'addToTail', 'target': {'t': 'node', 'i': 0}},
+        {'op': 'n_set', 'n': 7, 'args': [_s('freq'), _i(551)]},
+        {'op': 'play', 'kind': 'buf', 'b': 0, 'loop': False, 'args': _L(_s('amp'), _f(1, 8)), 'outbus': {'v': 'bus', 'i': 1}, 'fade': 0, 'action': 'addToHead'},
+        {'op': 'bind_exit'},
+        {'op': 'n_free', 'n': 1, 'send': True}]},
     # multi-packet operations around the packet sizes (1626 values per /b_setn, 1633 per /b_getn), mono and multichannel, offsets
     {'cls': 'valid', 'tags': ['fixed:streaming'], 'ops': [
         {'op': 'b_new', 'frames': 5000, 'channels': 1, 'compl': None},
@@ -1181,7 +1278,11 @@ def refs_ok(ops):
             return False
         if name.startswith('bus_') and 'u' in o and o['u'] >= nu:
             return False
+        if name == 'play' and o['kind'] == 'buf' and o['b'] >= nb:
+            return False
         if name in ('synth',) and o.get('ctor') != 'grain':
+            nn += 1
+        elif name == 'play':
             nn += 1
         elif name in ('group', 'basic_new'):
             nn += 1
